@@ -2,6 +2,7 @@
 import os
 from vf import *
 import layout, minb
+from common import loop_contract, loops_file
 
 HERE = os.path.dirname(os.path.abspath(__file__))
 MP = "libavoid/makepath.cpp"
@@ -106,6 +107,64 @@ replay_bendcount.per_trace = True
 replay_bends_scene = replay_bendcount
 
 
+REPLAY_ESTCOST = r'''
+// Native replay for the estimatedCost obligation: the REAL AStarPathPrivate::estimatedCost (file-local class, reached by including
+// makepath.cpp with its private members opened) on small sets of arrival candidates, against the minimum over the candidates of
+// the REAL estimatedCostSpecific + displacement.
+#define private public
+#include "libavoid/libavoid.h"
+#include "libavoid/makepath.cpp"
+#undef private
+#include <cstdio>
+#include <cmath>
+int main() {
+  using namespace Avoid;
+  Router router(OrthogonalRouting); router.setRoutingParameter(segmentPenalty, 50.0);
+  ConnRef *conn = new ConnRef(&router);
+  int bad = 0, runs = 0;
+  unsigned seed = 12345u;
+  for (int t = 0; t < 4000; ++t) {
+    AStarPathPrivate a;
+    int n = 1 + (seed >> 8) % 4; seed = seed * 1103515245u + 12345u;
+    std::vector<VertInf *> vs;
+    for (int i = 0; i < n; ++i) {
+      double x = (double)((seed >> 8) % 9) * 10 - 40; seed = seed * 1103515245u + 12345u;
+      double y = (double)((seed >> 8) % 9) * 10 - 40; seed = seed * 1103515245u + 12345u;
+      unsigned dirs = 1 + (seed >> 8) % 15; seed = seed * 1103515245u + 12345u;
+      double disp = (double)((seed >> 8) % 7) * 10; seed = seed * 1103515245u + 12345u;
+      VertInf *v = new VertInf(&router, VertID(100 + i, 1), Point(x, y), false);
+      vs.push_back(v);
+      a.m_cost_targets.push_back(v); a.m_cost_targets_directions.push_back(dirs); a.m_cost_targets_displacements.push_back(disp);
+    }
+    Point curr((double)((seed >> 8) % 9) * 10 - 40, 0); seed = seed * 1103515245u + 12345u;
+    Point last(curr.x, curr.y - 10);
+    double got = a.estimatedCost(conn, &last, curr);
+    double want = DBL_MAX;
+    for (int i = 0; i < n; ++i) {
+      double e = estimatedCostSpecific(conn, &last, curr, vs[i], a.m_cost_targets_directions[i]) + a.m_cost_targets_displacements[i];
+      if (e < want) want = e;
+    }
+    runs++;
+    if (got > want) {
+      if (bad < 5) printf("estimatedCost with %d arrival candidate(s) at (%g,%g): %g, but the estimate through the cheapest candidate is %g\n", n, curr.x, curr.y, got, want);
+      bad++;
+    }
+    for (int i = 0; i < n; ++i) delete vs[i];
+  }
+  if (bad) { printf("REPRODUCED: the heuristic exceeds the estimate through one of its arrival candidates in %d of %d cases\n", bad, runs); return 1; }
+  printf("not reproduced: %d cases\n", runs); return 0;
+}
+'''
+
+
+def replay_estcost(job, obl, inputs, workdir):
+    lib = build_lib("libavoid", workdir, exclude=("makepath.cpp",))
+    rc, out = native_run(REPLAY_ESTCOST, workdir, "replay_estcost", extra=["-I", COLA], libs=[lib], timeout=300)
+    if rc is None:
+        return False, out
+    return rc == 1, out
+
+
 REPLAY_SIMPLIFY = r'''
 // Native replay: Polygon::simplify() on short orthogonal routes must keep every bend (every output segment axis-parallel).
 #include "libavoid/geomtypes.h"
@@ -173,6 +232,43 @@ def jobs(tier):
                   slices=[ecs, frag, od, odc], replay=replay_bends_scene, flags=["--sat-solver", "cadical"], backend="sat:cadical",
                   domain="all finite doubles, every costTarDirs bit set, with or without a previous point; bends replaced by its contract",
                   expect=[r'w_bendcount\.postcondition', r'w_bends\.precondition|precondition']))
+    # ---- estimatedCost: the heuristic is the minimum over the arrival candidates of (specific estimate + displacement), so it never
+    #      exceeds the estimate through ANY candidate; estimatedCostSpecific behind a contract (an uninterpreted function of the candidate)
+    ec = slice_func(MP, r'^double AStarPathPrivate::estimatedCost\(ConnRef \*lineRef, const Point \*last,', "AStarPathPrivate::estimatedCost")
+    ec_hdr, ec_body = body_of(ec.text)
+    if not re.search(r'estimatedCost\(ConnRef \*lineRef, const Point \*last,\s*const Point& curr\) const\s*$', ec_hdr):
+        raise Undecided("C05: signature of AStarPathPrivate::estimatedCost changed")
+    ecs_sig = ecs.text[:ecs.text.index("{")]
+    if not re.search(r'\(ConnRef \*lineRef, const Point \*last,\s*const Point& curr, const VertInf \*costTar,\s*const unsigned int costTarDirs\)\s*$', ecs_sig):
+        raise Undecided("C05: signature of estimatedCostSpecific changed")
+    astar_pre = ("namespace Avoid {\nclass ConnRef; class VertInf; class ANode;\n"
+                 "// data members of the file-local class AStarPathPrivate in the real order (layout cross-checked against makepath.cpp)\n"
+                 "class AStarPathPrivate { public:\n    double verif_estimatedCost();\n"
+                 "    std::vector<ANode *> m_available_nodes; size_t m_available_array_size; size_t m_available_array_index; size_t m_available_node_index;\n"
+                 "    std::vector<VertInf *> m_cost_targets; std::vector<unsigned int> m_cost_targets_directions; std::vector<double> m_cost_targets_displacements;\n};\n}\n")
+    layout.check_layout("avoid_astar", "#include <vector>\n" + pre + astar_pre.replace("    double verif_estimatedCost();\n", ""), ["libavoid/makepath.cpp"],
+                        [("Avoid::AStarPathPrivate", ["m_available_nodes", "m_available_array_size", "m_available_array_index", "m_available_node_index",
+                                                      "m_cost_targets", "m_cost_targets_directions", "m_cost_targets_displacements"])], sizes=["Avoid::AStarPathPrivate"])
+    # abstraction: `double` retyped as a machine integer (wrap-around add, total order): the claim uses nothing about `+` but that it is a
+    # function of its operands, and nothing about `<` but that it is a total order -- true of doubles when no NaN arises
+    cxx4 = ("#define double long long\n#define VERIF_INT_MODE\n#include <verif_base.h>\n#include <vector>\n#include <cfloat>\n#include <algorithm>\n" + pre +
+            'extern "C" { double w_specific(void *lineRef, void *last, void *curr, void *tar, unsigned int dirs); void *verif_g_lineRef, *verif_g_last, *verif_g_curr; }\n' +
+            astar_pre + "namespace Avoid {\n" + ecs_sig + "{ return w_specific((void *)lineRef, (void *)last, (void *)&curr, (void *)costTar, costTarDirs); }\n"
+            "// the function body under its real parameter names (a parameterless member: loop-contract symbols must not contain commas)\n"
+            "double AStarPathPrivate::verif_estimatedCost()\n{ ConnRef *lineRef = (ConnRef *)verif_g_lineRef; const Point *last = (const Point *)verif_g_last; "
+            "const Point& curr = *(const Point *)verif_g_curr;\n" + ec_body + "\n}\n}\n"
+            'extern "C" double w_estimatedCost(void *self, void *lineRef, void *last, void *curr, size_t K) { verif_g_lineRef = lineRef; verif_g_last = last; '
+            'verif_g_curr = curr; return ((Avoid::AStarPathPrivate *)self)->verif_estimatedCost(); }\n')
+    this5 = ("((struct{void*a;unsigned long b;unsigned long c;unsigned long d;unsigned long e;unsigned long f;void*tg;unsigned long n;unsigned long tc;"
+             "void*dr;unsigned long dn;unsigned long dc;long long*dp;unsigned long pn;unsigned long pc;}__attribute__((packed))*)this)")
+    js.append(Job("estimatedCost_min_over_targets", "D", spec, "h_estimatedCost", cxx=cxx4, enforce="w_estimatedCost", replace=["w_specific"],
+                  defines=["JOB_estimatedCost_min", "INT_MODE"], extra_checks=False, slices=[ec, ecs], replay=replay_estcost, flags=["--sat-solver", "cadical", "--no-signed-overflow-check"], backend="sat:cadical",
+                  loops=loops_file([loop_contract("Avoid::AStarPathPrivate::verif_estimatedCost(this)", 0,
+                                                  "i <= {T}->n && estimate == estimate && (verif_K_idx < i ==> estimate <= verif_Kspec + {T}->dp[verif_K_idx])".replace("{T}", this5),
+                                                  "i, estimate", "{T}->n - i".replace("{T}", this5), {"i": "1::1::i", "estimate": "1::estimate", "this": "this"})]),
+                  domain="every number of arrival candidates up to 10^6, ghost candidate index K; estimatedCostSpecific behind a contract; costs as 64-bit machine integers "
+                         "(`+` any function of its operands, `<` a total order; no signed-overflow check on purpose): transfers to doubles when no NaN arises",
+                  expect=[r'w_estimatedCost\.postcondition', r'loop_invariant_base', r'loop_invariant_step', r'loop_decreases']))
     # ---- Polygon::simplify: the decision to drop a route point (expression fragment), vecDir behind a contract that demands tolerance 0
     simp = slice_func("libavoid/geomtypes.cpp", r'^Polygon Polygon::simplify\(void\) const', "Polygon::simplify")
     hdr_, sbody = fragment_loop(simp, r'for \(size_t j = 2; j < simplified\.size\(\); \)', "Polygon::simplify [loop body]")
@@ -208,11 +304,15 @@ TRUSTED = [
 ASSUMPTIONS = [
     "bends() is only called with single-bit directions and curr != dest: checked as call-site preconditions in the estimatedCost_bendcount job",
     "estimatedCostSpecific: the last two lines (cost = distance + bendCount x segmentPenalty) are not restated; the claim is about the bend count it charges",
+    "estimatedCost (minimum over the arrival candidates): proved with costs retyped as 64-bit machine integers and estimatedCostSpecific behind an assumed contract "
+    "(within one call a function of the candidate and its directions); the argument uses only that `+` is a function of its operands and `<` a total order, "
+    "which holds for doubles when no NaN arises (finite estimates and displacements) -- the floating-point version of the same obligation did not finish on any back end",
     "Polygon::simplify: only the decision to drop a point is under contract (exact collinearity, tolerance 0 at the call site); vector erase and checkpoint renumbering are not",
     "NOT decided (residue): the visibility graph contains an optimal path, turn pruning never loses it (its transposition symmetry is an obligation of the C20 check), "
     "every raw route segment is axis-parallel, agreement with a grid-search oracle on scenes",
 ]
 EXPLANATION = ("Contracts on the real libavoid bend estimator: Avoid::bends (helpers inlined) never exceeds the true free-space minimum number of bends from an independent search "
                "oracle, for all non-NaN doubles and all 16 direction pairs; the bend count charged by estimatedCostSpecific (bends behind its contract, call-site preconditions "
-               "checked) is admissible for every set of permitted arrival directions; Polygon::simplify drops a route point iff it is exactly collinear (no tolerance), so "
+               "checked) is admissible for every set of permitted arrival directions; estimatedCost never exceeds the estimate through ANY of its arrival candidates (loop contract, any number of "
+               "candidates); Polygon::simplify drops a route point iff it is exactly collinear (no tolerance), so "
                "orthogonal bends survive into the display route.")
